@@ -128,6 +128,153 @@ theorem C03_int_exact (O : Oracle) (text : Bytes) (v : PVal)
   | none => simp [hp] at h
   | some i => simp only [hp] at h; cases h; exact ⟨i, rfl, rfl⟩
 
+/-- **scalar exactness, stated independently of the decoder, every non-oracle kind** (round 4; answers the
+audit finding that `scalarSpells` is defined through `decodeScalar`). Whenever `decodeScalar` succeeds,
+the stored value is THE value the token denotes, where the denotation is given by the arithmetic /
+textual functions below and not by `decodeScalar`:
+* integers: `parseInt text bits` / `parseUint text bits` = the value of the optional sign and the decimal
+  digits of the whole text (`none` unless the text is exactly that and fits `bits`; `parseInt_fmtInt`,
+  `parseUint_fmtNat` tie them to the digit strings); a bare number is read at 64 bits and — for the
+  32-bit kinds — must lie in the 32-bit range; nothing is truncated, rounded or wrapped (`uint32`: the
+  stored natural number is `i.toNat` of an `i` with `0 ≤ i`);
+* bytes: one of the four base64 decodings of the text (`byteValueFromString`: standard / URL alphabet,
+  padded / unpadded; `C03_base64_spellings`);
+* date: the three `-`-separated integers, month 1–12, the day exists in that month of that year
+  (`daysInMonth`: Gregorian, with the century rule);
+* bool / string / key: the token itself.
+Floats, timestamps and decimals are oracle kinds: the stored value is what the shipped
+`ParseFloat` / `time.Parse` / `decimal.NewFromString` table says (`decodeScalar` adds only the float32
+range arm). With this theorem the `scalarSpells` clauses inside `StoredV` / `StoredRoot`
+(`C03_exact_stored_*`, `C03_exact_or_rejected_*`) mean: the value at the member's path is the denoted
+value in the sense above. -/
+theorem C03_scalar_exact (O : Oracle) (text : Bytes) (v : PVal) :
+    (decodeScalar O .int32 (.num text) = .ok (some v) →
+      ∃ i, parseInt text 64 = some i ∧ -2147483648 ≤ i ∧ i ≤ 2147483647 ∧ v = .int i) ∧
+    (decodeScalar O .int32 (.str text) = .ok (some v) → ∃ i, parseInt text 32 = some i ∧ v = .int i) ∧
+    (decodeScalar O .int64 (.num text) = .ok (some v) → ∃ i, parseInt text 64 = some i ∧ v = .int i) ∧
+    (decodeScalar O .int64 (.str text) = .ok (some v) → ∃ i, parseInt text 64 = some i ∧ v = .int i) ∧
+    (decodeScalar O .uint32 (.num text) = .ok (some v) →
+      ∃ i, parseInt text 64 = some i ∧ 0 ≤ i ∧ i ≤ 4294967295 ∧ v = .uint i.toNat) ∧
+    (decodeScalar O .uint32 (.str text) = .ok (some v) → ∃ n, parseUint text 32 = some n ∧ v = .uint n) ∧
+    (decodeScalar O .uint64 (.num text) = .ok (some v) → ∃ n, parseUint text 64 = some n ∧ v = .uint n) ∧
+    (decodeScalar O .uint64 (.str text) = .ok (some v) → ∃ n, parseUint text 64 = some n ∧ v = .uint n) ∧
+    (decodeScalar O .bytes (.str text) = .ok (some v) →
+      ∃ b, byteValueFromString text = some b ∧ v = .bytes b) ∧
+    (decodeScalar O .date (.str text) = .ok (some v) →
+      ∃ a b c y m d, splitDash text = [a, b, c] ∧ parseInt a 64 = some y ∧ parseInt b 64 = some m ∧
+        parseInt c 64 = some d ∧ 1 ≤ m ∧ m ≤ 12 ∧ 1 ≤ d ∧ d ≤ daysInMonth y m ∧ v = .date y m d) ∧
+    (decodeScalar O .string (.str text) = .ok (some v) → v = .str text) ∧
+    (decodeScalar O .key (.str text) = .ok (some v) → v = .str text) ∧
+    (∀ b, decodeScalar O .bool (.bool b) = .ok (some v) → v = .bool b) := by
+  refine ⟨?_, ?_, ?_, ?_, ?_, ?_, ?_, ?_, ?_, ?_, ?_, ?_, ?_⟩
+  · intro h
+    simp only [decodeScalar] at h
+    cases hp : parseInt text 64 with
+    | none => simp [hp] at h
+    | some i =>
+      simp only [hp] at h
+      split at h
+      · cases h
+      · next hr => cases h; exact ⟨i, rfl, by omega, by omega, rfl⟩
+  · intro h
+    simp only [decodeScalar] at h
+    cases hp : parseInt text 32 with
+    | none => simp [hp] at h
+    | some i => simp only [hp] at h; cases h; exact ⟨i, rfl, rfl⟩
+  · intro h
+    simp only [decodeScalar] at h
+    cases hp : parseInt text 64 with
+    | none => simp [hp] at h
+    | some i => simp only [hp] at h; cases h; exact ⟨i, rfl, rfl⟩
+  · intro h
+    simp only [decodeScalar] at h
+    cases hp : parseInt text 64 with
+    | none => simp [hp] at h
+    | some i => simp only [hp] at h; cases h; exact ⟨i, rfl, rfl⟩
+  · intro h
+    simp only [decodeScalar] at h
+    cases hp : parseInt text 64 with
+    | none => simp [hp] at h
+    | some i =>
+      simp only [hp] at h
+      split at h
+      · cases h
+      · next hr => cases h; exact ⟨i, rfl, by omega, by omega, rfl⟩
+  · intro h
+    simp only [decodeScalar] at h
+    cases hp : parseUint text 32 with
+    | none => simp [hp] at h
+    | some n => simp only [hp] at h; cases h; exact ⟨n, rfl, rfl⟩
+  · intro h
+    simp only [decodeScalar] at h
+    cases hp : parseUint text 64 with
+    | none => simp [hp] at h
+    | some n => simp only [hp] at h; cases h; exact ⟨n, rfl, rfl⟩
+  · intro h
+    simp only [decodeScalar] at h
+    cases hp : parseUint text 64 with
+    | none => simp [hp] at h
+    | some n => simp only [hp] at h; cases h; exact ⟨n, rfl, rfl⟩
+  · intro h
+    simp only [decodeScalar] at h
+    cases hp : byteValueFromString text with
+    | none => simp [hp] at h
+    | some b => simp only [hp] at h; cases h; exact ⟨b, rfl, rfl⟩
+  · intro h
+    simp only [decodeScalar] at h
+    cases hp : dateFromString text with
+    | none => simp [hp] at h
+    | some r =>
+      obtain ⟨y, m, d⟩ := r
+      simp only [hp] at h
+      cases h
+      unfold dateFromString at hp
+      split at hp
+      · next a b c hsplit =>
+        split at hp
+        · next y' m' d' h1 h2 h3 =>
+          split at hp
+          · cases hp
+          · split at hp
+            · cases hp
+            · split at hp
+              · cases hp
+              · next hr1 hr2 hr3 =>
+                cases hp
+                exact ⟨a, b, c, y, m, d, hsplit, h1, h2, h3, by omega, by omega, by omega, by omega, rfl⟩
+        · cases hp
+      · cases hp
+  · intro h; simp only [decodeScalar] at h; cases h; rfl
+  · intro h; simp only [decodeScalar] at h; cases h; rfl
+  · intro b h; simp only [decodeScalar] at h; cases h; rfl
+
+/-- **enum exactness** (round 4): an accepted enum name is the name of a declared option — as written, or
+with the enum's prefix removed — and the stored number is THAT option's number (never a default, never
+another option). -/
+theorem C03_enum_exact (pfx : Bytes) (opts : List (Bytes × Int)) (name : Bytes) (n : Int)
+    (h : enumOptionByName pfx opts name = some n) :
+    (name, n) ∈ opts ∨ (trimPrefix name pfx, n) ∈ opts := by
+  unfold enumOptionByName at h
+  cases hf : opts.find? (fun o => o.1 == name) with
+  | some o =>
+    simp only [hf, Option.some.injEq] at h
+    have hm := List.mem_of_find?_eq_some hf
+    have he : o.1 = name := by simpa using List.find?_some hf
+    left
+    have : o = (name, n) := Prod.ext he h
+    rw [← this]; exact hm
+  | none =>
+    simp only [hf, optionByName] at h
+    cases hg : opts.find? (fun o => o.1 == trimPrefix name pfx) with
+    | none => simp [hg] at h
+    | some o =>
+      simp only [hg, Option.map_some, Option.some.injEq] at h
+      have hm := List.mem_of_find?_eq_some hg
+      have he : o.1 = trimPrefix name pfx := by simpa using List.find?_some hg
+      right
+      have : o = (trimPrefix name pfx, n) := Prod.ext he h
+      rw [← this]; exact hm
+
 /-! ## structural faults are rejected -/
 
 /-- unknown key: a member whose name the property set does not have fails the object / the oneof
@@ -198,7 +345,11 @@ theorem C03_fault_scalar_positions (c : Cfg) (k : ScalarKind) (t : PTree) (tok :
 
 /-! ## document level: every admissible spelling decodes to the same message -/
 
-/-- **C03_variations**: for every `Env.flat` environment (flattened objects, exposed oneofs, proto
+/-- (`_partial`: proved for `Env.flat` environments and — hypothesis `hA` — not for j5 `Any` values under
+`WithProtoToAny`, where the decoder also stores the expanded content; protobuf-`Any` documents and an
+exposed oneof inlined from a flattened object are outside `SpellsV` / `Env.flat`.)
+
+**C03_variations_partial**: for every `Env.flat` environment (flattened objects, exposed oneofs, proto
 oneofs, wrapper oneofs, enums, arrays / maps, j5 `Any` properties — for those the codec without
 `WithProtoToAny`, `hA`) and every representable message `m`: every
 document that *spells* `m` (`SpellsRoot`, `Codec/Doc.lean`, defined by recursion on the document)
@@ -209,16 +360,22 @@ in order, every scalar written in **any** form
 `scalarReflectFromGo` maps to the stored value (the documented alternates: `C03_scalar_alternates`
 below), enum names with or without prefix — decodes to exactly `m`. The canonical encoding is one
 of these documents, so they all produce the same message as the canonical spelling. -/
-theorem C03_variations (c : Cfg) (hs : c.env.flat = true)
+theorem C03_variations_partial (c : Cfg) (hs : c.env.flat = true)
     (hA : c.protoToAny = false ∨ c.env.noJ5Any = true) (root : String) (m : Fields) (t : PTree)
     (hok : valOk c.env c.O (.object root) (.msg m) = true ∨
       valOk c.env c.O (.oneof root) (.msg m) = true)
     (h : SpellsRoot c root m t) : decRootTree c root t = .ok m :=
   spells_root_decodes c hs hA root m t hok h
 
-/-- the same for `Codec.JSONToProto` on bytes (insignificant whitespace is consumed by the JSON
-reader model `readDoc`) -/
-theorem C03_variations_bytes (c : Cfg) (hs : c.env.flat = true)
+/-- the same for `Codec.JSONToProto` on the document the JSON reader model delivers.
+What the `_bytes` form is: the tree theorem instantiated at `t := readDoc bs` (same proof term). `readDoc` —
+the model of `Decoder.Token()` + the tree builder — is where insignificant whitespace and string escapes
+are consumed; there is NO theorem that `readDoc` is insensitive to insignificant whitespace
+(`readDoc (ws-variant bs) = readDoc bs`; only `readDoc_render` for the encoder's compact output exists),
+so the property's whitespace clause rests on the tokenizer model, validated by the `tok` ops and the
+`ws` / `escape` variations of the correspondence stream — it is not a theorem. The hypotheses speak about
+`readDoc bs`, not about the bytes. -/
+theorem C03_variations_bytes_partial (c : Cfg) (hs : c.env.flat = true)
     (hA : c.protoToAny = false ∨ c.env.noJ5Any = true) (root : String) (m : Fields)
     (bs : Bytes)
     (hok : valOk c.env c.O (.object root) (.msg m) = true ∨
@@ -376,7 +533,14 @@ asks of the paths (`prefixFree` of the leaf entries). Every decoding mode.
 Missing for the full statement: the content of an `Any` (`StoredV` does not look into it); an
 exposed oneof inlined from a flattened object (its path is a prefix of its siblings'); for a oneof body made of `"!type"` members only, which arm `oneof.NewValue` selected;
 proto fields that belong to no property path (the message is built from the empty one by
-`Message.Set` at property paths only, but that is not part of `StoredRoot`). -/
+`Message.Set` at property paths only, but that is not part of `StoredRoot`).
+
+What this theorem proves is PLACEMENT, FRAMING and ONLY-IF. For a scalar leaf `StoredV` says
+`scalarSpells`: `decodeScalar` maps the token to the stored value — by itself that is what the
+decoder's scalar function returned; that it is the value the token DENOTES (no coercion, truncation,
+defaulting) is the separate theorem `C03_scalar_exact` (integers, bytes, date, bool, string) and, for
+floats / timestamps / decimals, the shipped oracle tables. `StoredV … (.any _) = True`: the content
+of an `Any` is not examined. -/
 theorem C03_exact_stored_partial (c : Cfg) (hE : c.env.apart) (root : String) (t : PTree)
     (m : Fields) (h : decRootTree c root t = .ok m) : StoredRoot c root m t :=
   stored_root c hE root t m h
@@ -421,7 +585,7 @@ theorem C03_flat_itemsOk (env : Env) (hs : env.flat = true) : env.itemsOk = true
 
 /-- **the two relational halves fit together** (round 4): whatever document `SpellsRoot` accepts as a
 spelling of a representable message `m` is, read the other way round, a document that says exactly
-`m` (`StoredRoot`) — the forward relation (`C03_variations`) is contained in the backward one
+`m` (`StoredRoot`) — the forward relation (`C03_variations_partial`) is contained in the backward one
 (`C03_exact_stored_flat_partial`) — and a document spells **at most one** representable message. -/
 theorem C03_spelled_is_stored (c : Cfg) (hs : c.env.flat = true)
     (hA : c.protoToAny = false ∨ c.env.noJ5Any = true) (root : String) (m : Fields) (t : PTree)
@@ -461,22 +625,30 @@ theorem C03_stored_member (c : Cfg) (props : List PropDef) (fs : Fields) :
       · rw [hfp] at hfp'; cases hfp'; exact absurd hpe hne
     · exact C03_stored_member c props fs rest h.2 k v p hm hnn hfp hne
 
-/-- the same on bytes: what `Codec.JSONToProto` accepts, it stored exactly as the reader saw it -/
+/-- the same on bytes: what `Codec.JSONToProto` accepts, it stored exactly as the reader saw it
+(the tree theorem at `t := readDoc bs`; see the note at `C03_variations_bytes_partial`: no
+whitespace-insensitivity theorem for `readDoc`) -/
 theorem C03_exact_stored_bytes_partial (c : Cfg) (hE : c.env.apart) (root : String) (bs : Bytes)
     (m : Fields) (h : decodeBytes c root bs = .ok m) : StoredRoot c root m (readDoc bs) :=
   stored_root c hE root (readDoc bs) m h
 
 /-! ## scalar values supplied as URL query parameters -/
 
-/-- **C03_query_scalar**: a scalar (or enum) value supplied as the URL query parameter
+/-- (`_partial`: ONE key with ONE value; every segment of the key must be the JSON name of a property
+literally (`queryDoc` resolves it with `findProp`) — the `propertyName` / `ToLowerCamel` fallback for
+snake-case segments, repeated values (array parameters), several keys in one query and JSON-valued
+container parameters are NOT covered by this theorem; they are covered by the correspondence stream
+`codec.query` and its Go-side oracle only.)
+
+**C03_query_scalar_partial**: a scalar (or enum) value supplied as the URL query parameter
 `a.b.c=v` — dotted path of JSON names through object, wrapper-oneof and exposed-oneof containers
 of any proto path — produces the **same outcome** as the document `{"a":{"b":{"c":V}}}`
 (`queryDoc`: `V` is `true` / `false` for a boolean field given as `true` / `false`, the string
 `"v"` otherwise): the same message when accepted, an error exactly when the document is rejected.
 For every environment (no hypothesis on the schema), every oracle, both modes. Together with
-`C03_variations` / `C03_scalar_alternates` (the string form of a number, a date, … is an
+`C03_variations_partial` / `C03_scalar_alternates` (the string form of a number, a date, … is an
 admissible spelling) the parameter produces the same message as the canonical spelling. -/
-theorem C03_query_scalar (c : Cfg) (root : String) (props : List PropDef) (key s : Bytes)
+theorem C03_query_scalar_partial (c : Cfg) (root : String) (props : List PropDef) (key s : Bytes)
     (doc : PTree)
     (hroot : c.env.find root = some (.object props) ∨ c.env.find root = some (.oneof props))
     (hnt : ascii "!type" ∉ splitDot key) (hdoc : queryDoc c (splitDot key) props s = some doc) :
@@ -496,13 +668,21 @@ document only and lists the classes: wrong JSON type; a scalar token `scalarRefl
 theorems above); unknown enum name; unknown key; more than one key in a oneof; a `"!type"` that
 contradicts the key present or names no member; a `null` array element or map value; a duplicate
 key; a truncated container. For every environment whose array / map items are not arrays / maps
-(`Env.itemsOk`, needed only to exclude the `newFieldFactory` panic), every root, every oracle. -/
+(`Env.itemsOk`, needed only to exclude the `newFieldFactory` panic), every root, every oracle.
+
+What this theorem is: error PROPAGATION from any depth. The scalar clause of `FaultV` is "`decodeScalar`
+returns an error on the token"; that the documented fault classes (unparsable / out-of-range numbers,
+invalid base64 / date / …) do make `decodeScalar` fail is the content of the scalar-level theorems
+`C03_fault_wrong_type / bad_integer / int32_range / uint32_range / invalid_text`. NOT in `FaultRoot`:
+faults inside the body of an `Any` (a key other than `"!type"` / `"value"`, a missing `"!type"` — `FaultV …
+(.any _) = False`), and a second member of a plain proto oneof (only the single-step theorem
+`C03_fault_proto_oneof_second_member`; `FaultM` has no such clause). -/
 theorem C03_faults (c : Cfg) (hc : c.env.itemsOk = true) (root : String) (t : PTree)
     (h : FaultRoot c root t) : ∃ e, decRootTree c root t = .err e :=
   fault_rejected c hc root t h
 
 /-- the same for `Codec.JSONToProto` on bytes: if the tree the JSON reader delivers contains a
-fault, the call returns an error -/
+fault, the call returns an error (the tree theorem at `t := readDoc bs`) -/
 theorem C03_faults_bytes (c : Cfg) (hc : c.env.itemsOk = true) (root : String) (bs : Bytes)
     (h : FaultRoot c root (readDoc bs)) : ∃ e, decodeBytes c root bs = .err e :=
   fault_rejected c hc root (readDoc bs) h
@@ -612,7 +792,7 @@ example : SpellsRoot faultCfg "t.M"
   · exact absurd (by decide) hn
   · exact ⟨fun _ => by decide, fun h => by simp at h⟩
 
-/-- `sub.w.b=7` is the document `{"sub":{"w":{"b":"7"}}}` (hypotheses of `C03_query_scalar`) -/
+/-- `sub.w.b=7` is the document `{"sub":{"w":{"b":"7"}}}` (hypotheses of `C03_query_scalar_partial`) -/
 example : queryDoc faultCfg (splitDot (ascii "sub.w.b")) mProps (ascii "7") =
     some (.obj (.cons (ascii "sub") [] (.obj (.cons (ascii "w") [] (.obj (.cons (ascii "b") []
       (.str (ascii "7") []) (.nil .closed))) (.nil .closed))) (.nil .closed))) := by
@@ -676,7 +856,7 @@ example (c : Cfg) : SpellsV c (.any false) (.anyJ5 (ascii "t.T") [] (ascii "{}")
   simp only [SpellsV]
   exact ⟨rfl, ascii "t.T", .obj (.nil .closed), [], [], [], rfl, rfl, by decide, Or.inr rfl⟩
 /-- … and such a message is representable in a flat environment with an `Any` property (hypotheses
-of `C03_variations` for `Any`: `hok`, `hs`, `hA`) -/
+of `C03_variations_partial` for `Any`: `hok`, `hs`, `hA`) -/
 example : valOk { defs := [("t.A", .object [
       { jsonName := ascii "p", path := [2], pres := .msg, field := .any false }])] }
     { toyOracle with chunk := fun bs => if bs = ascii "{}" then some (.obj (.nil .closed)) else none }
